@@ -157,9 +157,7 @@ package gomatrixserverlib
 //@   frameprop C09
 //@   requires m != nil && m.allowerContext != nil && m.newMember.ThirdPartyInvite != nil
 //@   ensures mxid: err == nil ==> m.targetID == m.newMember.ThirdPartyInvite.Signed.MXID
-//@   ensures marshalled: err == nil ==> (called(Marshal) && ret(Marshal, 1) == nil)
-//@   ensures verified: err == nil ==> tpiVerified(m.thirdPartyInvite.PublicKeys, m.newMember.ThirdPartyInvite.Signed.Signatures, str(ret(Marshal, 0)), len(m.thirdPartyInvite.PublicKeys))
-//@   ensures complete: (m.targetID == m.newMember.ThirdPartyInvite.Signed.MXID && called(Marshal) && ret(Marshal, 1) == nil && tpiVerified(m.thirdPartyInvite.PublicKeys, m.newMember.ThirdPartyInvite.Signed.Signatures, str(ret(Marshal, 0)), len(m.thirdPartyInvite.PublicKeys))) ==> err == nil
+//@   ensures iff: (err == nil) <==> tpiSpec(*m)
 //@   loop 1: invariant 0 <= idx(1) && idx(1) <= len(m.thirdPartyInvite.PublicKeys)
 //@   loop 1: invariant forall i int :: 0 <= i && i < idx(1) ==> tpiKeyFails(m.thirdPartyInvite.PublicKeys[i], m.newMember.ThirdPartyInvite.Signed.Signatures, str(marshalledSigned))
 //@   loop 2: invariant forall d string, k string :: { seen(2)[d], k in get(m.newMember.ThirdPartyInvite.Signed.Signatures, d) } (seen(2)[d] && k in get(m.newMember.ThirdPartyInvite.Signed.Signatures, d) && hasPrefix(k, "ed25519")) ==> !vjOK(d, k, str(publicKey.PublicKey), str(marshalledSigned))
@@ -183,4 +181,93 @@ package gomatrixserverlib
 //@   frameprop C09
 //@   requires e != nil && e.allowerContext != nil && event != nil && e.userIDQuerier != nil && (e.powerLevelsEvent == nil ==> e.createEvent != nil)
 //@   ensures iff: (err == nil) <==> commonSpec(*e, event)
+//@   assigns nothing
+
+//@ func NewMemberContentFromEvent
+//@   property C07
+//@   requires event != nil
+//@   ensures parses: (err == nil) <==> memberParses(event)
+//@   ensures membership: err == nil ==> c.Membership == evMembership(event)
+//@   ensures via: err == nil ==> c.AuthorisedVia == evAuthorisedVia(event)
+//@   ensures third-party: err == nil ==> c.ThirdPartyInvite == evThirdPartyInvite(event)
+//@   ensures mapping: err == nil ==> c.MXIDMapping == evMXIDMapping(event)
+//@   assigns nothing
+
+//@ func NewMemberContentFromAuthEvents
+//@   property C07
+//@   requires authEvents != nil
+//@   ensures error: (err != nil) <==> stMemberErr(authEvents, senderID)
+//@   ensures membership: err == nil ==> c.Membership == stMembership(authEvents, senderID)
+//@   ensures absent: (err == nil && authEvents.Member(senderID)[0] == nil) ==> (c.ThirdPartyInvite == nil && c.AuthorisedVia == "" && c.MXIDMapping == nil)
+//@   ensures present: (err == nil && authEvents.Member(senderID)[0] != nil) ==> (c.ThirdPartyInvite == evThirdPartyInvite(authEvents.Member(senderID)[0]) && c.AuthorisedVia == evAuthorisedVia(authEvents.Member(senderID)[0]))
+//@   calls Member C09.footprint-member: stateKey == senderID
+//@   assigns nothing
+
+//@ func (*allowerContext).newEventAllower
+//@   property C07
+//@   requires a != nil && a.provider != nil
+//@   ensures context: e.allowerContext == a
+//@   ensures error: (err != nil) <==> stMemberErr(a.provider, senderID)
+//@   ensures membership: err == nil ==> e.member.Membership == stMembership(a.provider, senderID)
+//@   assigns nothing
+
+//@ func (*allowerContext).defaultEventAllowed
+//@   property C07
+//@   frameprop C09
+//@   requires a != nil && a.provider != nil && event != nil && a.userIDQuerier != nil && (a.powerLevelsEvent == nil ==> a.createEvent != nil)
+//@   ensures iff: (err == nil) <==> (!stMemberErr(a.provider, event.SenderID()) && defaultSpec(*a, event))
+//@   assigns nothing
+
+//@ func GetRoomVersion
+//@   trusted
+//@   ensures known: (err == nil) <==> verKnown(verStr)
+//@   ensures impl: err == nil ==> (impl != nil && ref(impl) == verImplRef(verStr))
+//@   assigns nothing
+
+//@ func MustGetRoomVersion
+//@   trusted
+//@   requires verKnown(verStr)
+//@   ensures impl: result != nil && ref(result) == verImplRef(verStr)
+//@   assigns nothing
+
+//@ func spec.NewUserID
+//@   trusted
+//@   ensures ok: (err == nil) <==> userIDOK(id, allowHistoricalIDs)
+//@   ensures parts: err == nil ==> (result[0] != nil && result[0].raw == id && result[0].domain == userIDDomain(id))
+//@   assigns nothing
+
+//@ func (*membershipAllower).membershipAllowed
+//@   property C07
+//@   frameprop C09
+//@   requires m != nil && m.allowerContext != nil && event != nil && m.userIDQuerier != nil && m.createEvent != nil && m.roomVersionImpl != nil && m.provider != nil
+//@   ensures same-room: err == nil ==> m.create.roomID == event.RoomID().String()
+//@   ensures sender-ok: err == nil ==> maSenderOK(*m, event)
+//@   ensures decision: (m.create.roomID == event.RoomID().String() && maSenderOK(*m, event)) ==> ((err == nil) <==> (firstJoinSpec(*m, event) || ((m.newMember.Membership == "invite" && m.newMember.ThirdPartyInvite != nil) ? tpiSpec(*m) : ((m.targetID == m.senderID) ? selfSpec(*m) : otherSpec(m.senderMember.Membership, m.newMember.Membership, m.oldMember.Membership, effLevel(*m.allowerContext, m.senderID), effLevel(*m.allowerContext, m.targetID), m.powerLevels.Ban, m.powerLevels.Kick, m.powerLevels.Invite)))))
+//@   assigns nothing
+
+//@ func domainFromID
+//@   property C07
+//@   ensures iff: (err == nil) <==> indexByte(id, ':') >= 0
+//@   ensures domain: err == nil ==> result[0] == substr(id, indexByte(id, ':') + 1, len(id))
+//@   assigns nothing
+
+//@ func checkCreateEventV2
+//@   property C07
+//@   requires event != nil && !event.RoomID().isDomainless
+//@   ensures iff: (err == nil) <==> createSpecV2(event, sender.domain)
+//@   assigns nothing
+
+//@ func (*allowerContext).aliasEventAllowed
+//@   property C07
+//@   frameprop C09
+//@   requires a != nil && event != nil && a.userIDQuerier != nil
+//@   requires senderUser(*a, event)[1] == nil ==> senderUser(*a, event)[0] != nil
+//@   ensures iff: (err == nil) <==> aliasSpec(*a, event)
+//@   assigns nothing
+
+//@ func (*allowerContext).redactEventAllowed
+//@   property C07
+//@   frameprop C09
+//@   requires a != nil && a.provider != nil && event != nil && a.userIDQuerier != nil && (a.powerLevelsEvent == nil ==> a.createEvent != nil)
+//@   ensures iff: (err == nil) <==> (!stMemberErr(a.provider, event.SenderID()) && redactSpec(*a, event))
 //@   assigns nothing
